@@ -8,7 +8,7 @@ use serde_json::{json, Value};
 
 const NAMES: [&str; 7] = ["time-limited", "m", "/m", "タグ", "a.b", "*", "removal-marker"];
 const ANAMES: [&str; 9] = ["to", "name", "skip", "unwrap-block", "c", "*", "x-y", "属性", "k2"];
-const VALUES: [&str; 18] = [
+const VALUES: [&str; 20] = [
     "",
     "v",
     "2020-01-01 00:00:00",
@@ -27,6 +27,8 @@ const VALUES: [&str; 18] = [
     "name=\"feat-a\" skip",
     "\n",
     "=",
+    "C:\\dir\\",
+    "a\\",
 ];
 const SEPS: [&str; 5] = [" ", "  ", "\n", "\n  ", " \n * "];
 const EQS: [&str; 4] = ["=", " =", "= ", " = "];
@@ -128,7 +130,7 @@ fn judge_tag(ctx: &mut Ctx, body: &str, ds: &str, de: &str, name: &str, want: &[
 
 // ---- opaque-value metamorphic check through clean
 
-const OPAQUE: [&str; 14] = [
+const OPAQUE: [&str; 15] = [
     "plain note",
     "skip",
     " skip ",
@@ -143,6 +145,7 @@ const OPAQUE: [&str; 14] = [
     "/tl",
     "tl",
     "",
+    "C:\\legacy\\",
 ];
 
 fn opaque_one(ctx: &mut Ctx, sp: &Sp, kind_tl: bool, ready: bool, skip: bool, val: &str, q: char, pos: usize, sep: &str, gen_name: &str) {
